@@ -53,7 +53,7 @@ PROBES = {
             'same_pair_across_update_without_set_context'],
     'C17': ['reorder_with_nonlocal_tags', 'reorder_strided', 'repeated_reorder', 'reorder_then_query', 'reorder_empty_array',
             'solver_reorder_then_query_without_update', 'periodic_domain', 'reorder_with_domain_ghosts',
-            'property_added_after_nnps_was_built', 'lb_props_restricted'],
+            'property_added_after_nnps_was_built', 'lb_props_restricted', 'in_parallel_flag_set'],
 }
 
 
@@ -200,6 +200,7 @@ def gen(t, prop, tier):
         if not any(ax):
             ax[0] = 1
         sc['periodic'] = ax
+    sc['in_parallel'] = int(prop == 'C17' and t.bool(0.15))
     return sc
 
 
@@ -479,6 +480,10 @@ def execute(sc, prop):
         probe('periodic_domain')
     try:
         nnps = _make_nnps(sc, w.particles, dom)
+        if sc.get('in_parallel') and dom is None:
+            # the flag a distributed run sets (the parallel manager then owns the domain ghosts); a plain domain has none
+            nnps.set_in_parallel(True)
+            probe('in_parallel_flag_set')
         nnps.update_domain()
         nnps.update()
     except RuntimeError as e:
